@@ -15,7 +15,8 @@ for f in sorted(glob.glob(R + '/checks/c[0-9][0-9].meta.json')):
     q = '%s cases, %d sections, %.0f s' % (format(ev['coverage']['evaluations'], ','), len(ev['coverage']['sections_wall_s']), ev['wall_s']) if ev and ev['tier'] == 'quick' else '-'
     t = thor.get(pid, '-')
     sd = seeds.get(pid, []); caught = sum(1 for x in sd if x['outcome'].startswith('caught'))
-    rows.append('| %s | %s | %s | %s | %s | %s | %d of %d at once, %d after strengthening |' % (pid, srcs, m['level'], '+'.join(fl), q, t, caught, len(sd), len(sd) - caught))
+    other = sum(1 for x in sd if x['outcome'].startswith('not caught by'))
+    rows.append('| %s | %s | %s | %s | %s | %s | %d of %d at once, %d after strengthening%s |' % (pid, srcs, m['level'], '+'.join(fl), q, t, caught, len(sd), len(sd) - caught - other, (', %d by the check of the property that owns the changed code' % other) if other else ''))
 table = '| id | harness | level | flavours (quick) | quick tier on /repo (last run) | thorough tier | seeded changes caught |\n|---|---|---|---|---|---|---|\n' + '\n'.join(rows) + '\n'
 p = R + '/DESIGN.md'; s = open(p).read()
 a = s.index('<!-- STATUSTABLE -->'); b = s.index('<!-- /STATUSTABLE -->')
